@@ -50,6 +50,8 @@ def check(case, ctx):
         ctx.violation("valid_allocation_rejected", f"constructor raised {type(a0).__name__}: {str(a0)[:300]} on {al['cells']}")
         return
     scale = max(al["ext"])
+    if not au.loaded_matches_document(ctx, a if "a0" not in dir() else a0, al):
+        return
     ctx.count("layout:" + al["layout"])
     for c in al["cells"]:
         if not c["a"]:
